@@ -289,7 +289,7 @@ func (w *World) inliner(fn *load.Func, inLit bool) flow.InlineFunc {
 		if src == nil || src.Decl.Body == nil || src.Pkg != fn.Pkg || src.Obj != callee {
 			return nil // another package, no body, or an instantiated generic
 		}
-		if w.knownFunc(src.Name) || src.Decl == fn.Decl {
+		if (w.knownFunc(src.Name) && !w.SpliceKnown) || src.Decl == fn.Decl {
 			return nil
 		}
 		decl := src.Decl
